@@ -242,11 +242,13 @@ pub struct DocOpts {
   /// probability-ish weights: how often a top-level field is absent (out of 10)
   pub absent: u32,
   pub max_nested_objs: usize,
+  /// allow null members inside arrays of nullable nested fields
+  pub null_items: bool,
 }
 
 impl Default for DocOpts {
   fn default() -> Self {
-    DocOpts { text: TextOpts { max_words: 8, odd: true, vocab: 30 }, max_multi: 3, absent: 2, max_nested_objs: 3 }
+    DocOpts { text: TextOpts { max_words: 8, odd: true, vocab: 30 }, max_multi: 3, absent: 2, max_nested_objs: 3, null_items: true }
   }
 }
 
@@ -325,7 +327,7 @@ fn nested_object(n: &NestedSpec, o: DocOpts) -> BoxedStrategy<Value> {
 /// object | array of objects (with nulls only when the container is nullable)
 pub fn nested_value(n: &NestedSpec, o: DocOpts) -> BoxedStrategy<Value> {
   let obj = nested_object(n, o);
-  let item: BoxedStrategy<Value> = if n.nullable { prop_oneof![9 => obj.clone(), 1 => Just(Value::Null)].boxed() } else { obj.clone() };
+  let item: BoxedStrategy<Value> = if n.nullable && o.null_items { prop_oneof![9 => obj.clone(), 1 => Just(Value::Null)].boxed() } else { obj.clone() };
   prop_oneof![
     3 => obj,
     6 => vec(item, 0..=o.max_nested_objs).prop_map(Value::Array),
